@@ -466,7 +466,8 @@ class BaseSpace(BaseParent, ItemFactory):
     def __delitem__(self, key):
         """Delete a child :class:`ItemSpace` object"""
 
-        key = tuplize_key(self, key)
+        # The key bound as by subscription, defaults included
+        key = get_node(self, tuplize_key(self, key), {})[KEY]
         if key in list(self._impl.param_spaces):
             self._impl.clear_itemspace_at(key)
         else:
